@@ -176,7 +176,8 @@ impl FileManager {
                     .read(true)
                     .write(true)
                     .create(true)
-                    .truncate(true)
+                    // the records of an existing file stay
+                    .truncate(false)
                     .open(file_name)?;
                 self.handle_map
                     .insert(handle, FileInfo::new_random(file, rec_len));
